@@ -244,7 +244,7 @@ func execHeadersFirst(f []string) string {
 // order, duplicates), a few invalid blocks delivered when they extend the tip.
 func genHeadersFirst(g *core.Gen) {
 	r := g.R
-	for i := 0; i < g.N(160, 3000); i++ {
+	for i := 0; i < g.N(160, 1500); i++ {
 		t := newTree()
 		n := r.Intn(12) + 2
 		for t.n() <= n {
